@@ -428,3 +428,186 @@ theorem tfBatched_eq_map {σ V ρ : Type} (eig : σ → List α × V) (mk : List
 end tearfree
 
 end PrecondVerif.BlockDiag
+
+/-! ## round 2: slot plans, eigh root under the block decomposition of the padded matrix -/
+namespace PrecondVerif.BlockDiag
+variable {α : Type}
+
+/-! slot plans -/
+
+theorem length_blockSlots (pt : PType) (n : Nat) (blk : List (Nat × Nat)) :
+    (blockSlots pt n blk).length = (precAxes pt blk.length).length := by
+  simp [blockSlots]
+
+theorem length_slotsFrom (pt : PType) (r : Nat) : ∀ (n : Nat) (blocks : List (List (Nat × Nat))),
+    (∀ blk ∈ blocks, blk.length = r) → (slotsFrom pt n blocks).length = blocks.length * (precAxes pt r).length
+  | _, [], _ => by simp [slotsFrom]
+  | n, blk :: rest, h => by
+    simp only [slotsFrom, List.length_append, List.length_cons, length_blockSlots]
+    rw [length_slotsFrom pt r (n + 1) rest (fun b hb => h b (List.mem_cons_of_mem _ hb)), h blk List.mem_cons_self]
+    ring
+
+theorem length_of_mem_cart {β : Type} : ∀ (ls : List (List β)) (x : List β), x ∈ cart ls → x.length = ls.length
+  | [], x, h => by simp [cart] at h; simp [h]
+  | l :: ls, x, h => by
+    simp only [cart, List.mem_flatMap, List.mem_map] at h
+    obtain ⟨a, _, y, hy, rfl⟩ := h
+    simp [length_of_mem_cart ls y hy]
+
+theorem length_of_mem_dsBlocks (shape : List Nat) (b : Nat) (blk : List (Nat × Nat)) (h : blk ∈ dsBlocks shape b) :
+    blk.length = shape.length := by
+  have := length_of_mem_cart _ _ h
+  simpa using this
+
+theorem slotsFrom_getElem (pt : PType) (r : Nat) : ∀ (n : Nat) (blocks : List (List (Nat × Nat))),
+    (∀ blk ∈ blocks, blk.length = r) → ∀ (i k : Nat) (hi : i < blocks.length) (hk : k < (precAxes pt r).length),
+    (slotsFrom pt n blocks)[i * (precAxes pt r).length + k]? =
+      some ⟨n + i, (precAxes pt r)[k], blocks[i], (blocks[i].getD ((precAxes pt r)[k]) (0, 0)).2⟩
+  | _, [], _, i, _, hi, _ => absurd hi (by simp)
+  | n, blk :: rest, h, 0, k, _, hk => by
+    have hb : blk.length = r := h blk List.mem_cons_self
+    simp only [slotsFrom, Nat.zero_mul, Nat.zero_add, Nat.add_zero, List.getElem_cons_zero]
+    rw [List.getElem?_append_left (by rw [length_blockSlots, hb]; exact hk)]
+    simp [blockSlots, hb, hk]
+  | n, blk :: rest, h, i + 1, k, hi, hk => by
+    have hb : blk.length = r := h blk List.mem_cons_self
+    have hlen : (blockSlots pt n blk).length = (precAxes pt r).length := by rw [length_blockSlots, hb]
+    simp only [slotsFrom, List.getElem_cons_succ]
+    rw [List.getElem?_append_right (by rw [hlen]; nlinarith)]
+    have : (i + 1) * (precAxes pt r).length + k - (blockSlots pt n blk).length = i * (precAxes pt r).length + k := by
+      rw [hlen]; ring_nf; omega
+    rw [this, slotsFrom_getElem pt r (n + 1) rest (fun b hb' => h b (List.mem_cons_of_mem _ hb')) i k
+      (by simpa using hi) hk]
+    congr 2; omega
+
+theorem treeSlots_append (pt : PType) (b : Nat) (pre post : List (List Nat)) (sh : List Nat) :
+    treeSlots pt b (pre ++ sh :: post) = treeSlots pt b pre ++ dsSlotsP pt sh b ++ treeSlots pt b post := by
+  simp [treeSlots, List.flatMap_append, List.flatMap_cons]
+
+theorem indexStarts_getElem : ∀ (pre : List Nat) (c : Nat) (post : List Nat) (o : Nat),
+    (indexStarts (pre ++ c :: post) o)[pre.length]? = some (o + pre.sum)
+  | [], c, post, o => by simp [indexStarts]
+  | x :: pre, c, post, o => by
+    simp only [List.cons_append, indexStarts, List.length_cons, List.getElem?_cons_succ, List.sum_cons]
+    rw [indexStarts_getElem pre c post (o + x), Nat.add_assoc]
+
+theorem length_treeSlots (pt : PType) (b : Nat) (shapes : List (List Nat)) :
+    (treeSlots pt b shapes).length = (shapes.map fun sh => (dsSlotsP pt sh b).length).sum := by
+  induction shapes with
+  | nil => rfl
+  | cons sh rest ih => simp [treeSlots, List.flatMap_cons] at ih ⊢
+
+end PrecondVerif.BlockDiag
+
+namespace PrecondVerif.BlockDiag
+variable {α : Type}
+
+/-! eigh root under the block decomposition of the padded matrix -/
+
+theorem sumTo_add [AddMonoid α] (K : Nat) : ∀ (s : Nat) (f : Nat → α), sumTo (K + s) f = sumTo K f + sumTo s (fun l => f (K + l))
+  | 0, f => by simp [sumTo]
+  | s + 1, f => by
+    rw [← Nat.add_assoc, sumTo_succ, sumTo_succ, sumTo_add K s f, add_assoc]
+
+section eigh
+variable [Field α] [LinearOrder α] [IsStrictOrderedRing α]
+
+/-- hypothesis on the eigen-solver (`eigh` spec with zero padding): for a zero-padded matrix `blockdiag(R, 0)` the kept
+eigenpairs (the last `s` columns / values, i.e. those not zeroed by `e *= flip(ix)`) are those of `R`, zero-extended:
+`blockdiag(R, 0)` has the decomposition `blockdiag(U, I)`.  Nothing is assumed about the `N - s` dropped columns. -/
+def KernelPadOK (kernel : Kernel α) : Prop :=
+  ∀ (s N : Nat) (f : F α), Supp s f → s ≤ N → ∀ k, N - s ≤ k →
+    (∀ i, (kernel N (tabM N f)).1 i k = padU s N (kernel s (tabM s f)).1 i k) ∧
+    (kernel N (tabM N f)).2 k = padE s N (kernel s (tabM s f)).2 k
+
+theorem eighValF_congr_kept (N s : Nat) (invE : α → α) {U U' : F α} {e e' : Nat → α}
+    (hU : ∀ i k, N - s ≤ k → U i k = U' i k) (he : ∀ k, N - s ≤ k → e k = e' k) :
+    eighValF N s invE U e = eighValF N s invE U' e' := by
+  funext i j
+  unfold eighValF
+  apply sumTo_congr
+  intro k _
+  by_cases hk : k < N - s
+  · simp only [if_pos hk]; ring
+  · rw [hU i k (by omega), hU j k (by omega), he k (by omega)]
+
+theorem eighValF_pad {s N : Nat} (hs : s ≤ N) (invE : α → α) (U : F α) (e : Nat → α) :
+    eighValF N s invE (padU s N U) (padE s N e) = fun i j => if i < s ∧ j < s then eighValF s s invE U e i j else 0 := by
+  obtain ⟨K, rfl⟩ : ∃ K, N = K + s := ⟨N - s, by omega⟩
+  funext i j
+  unfold eighValF padU padE
+  simp only [Nat.add_sub_cancel, Nat.sub_self]
+  rw [sumTo_add]
+  have h1 : sumTo K (fun k => (if k < K then (if i = s + k then (1 : α) else 0) else if i < s then U i (k - K) else 0) *
+      (if k < K then 0 else invE (if k < K then 0 else e (k - K))) *
+      (if k < K then (if j = s + k then (1 : α) else 0) else if j < s then U j (k - K) else 0)) = 0 := by
+    apply sumTo_zero_fun
+    intro l hl
+    rw [if_pos hl, if_pos hl]; ring
+  rw [h1, zero_add]
+  by_cases hij : i < s ∧ j < s
+  · rw [if_pos hij]
+    apply sumTo_congr
+    intro l hl
+    have e3 : ¬ (K + l < K) := by omega
+    have e4 : ¬ (l < 0) := by omega
+    simp only [if_neg e3, if_neg e4, if_pos hij.1, if_pos hij.2, Nat.add_sub_cancel_left]
+  · rw [if_neg hij]
+    apply sumTo_zero_fun
+    intro l hl
+    have e3 : ¬ (K + l < K) := by omega
+    simp only [if_neg e3]
+    by_cases hi : i < s
+    · have hj : ¬ j < s := fun h => hij ⟨hi, h⟩
+      rw [if_neg hj]; ring
+    · rw [if_neg hi]; ring
+
+theorem eighRootA_padSq {s N : Nat} (kernel : Kernel α) (hk : KernelPadOK kernel) (invE : α → α) (hs : s ≤ N)
+    (ridge : α) (a : A2 α) :
+    eighRootA kernel invE N s ridge (padSq s N a) = embed N (eighRootA kernel invE s s ridge a) := by
+  have hreg : Supp s (fun i j => maskF s (rdM a) i j + ridge * (eyeS s i j : α)) := by
+    intro i j h
+    show maskF s (rdM a) i j + ridge * eyeS s i j = 0
+    rw [supp_eyeS s i j h]; unfold maskF; rw [if_neg (by omega)]; ring
+  have hmask : ∀ i j, maskF s (rdM (padSq s N a)) i j = maskF s (rdM a) i j := by
+    intro i j
+    unfold maskF padSq
+    by_cases h : i < s ∧ j < s
+    · rw [if_pos h, if_pos h, rdM_tabM, if_pos ⟨by omega, by omega⟩]; unfold padSqF; rw [if_pos h]
+    · rw [if_neg h, if_neg h]
+  unfold eighRootA
+  simp only [hmask]
+  rw [eighValF_congr_kept N s invE (fun i k h => (hk s N _ hreg hs k h).1 i) (fun k h => (hk s N _ hreg hs k h).2),
+    eighValF_pad hs]
+  unfold embed
+  apply tabM_congr
+  intro i j hi hj
+  rw [rdM_tabM]
+end eigh
+end PrecondVerif.BlockDiag
+
+namespace PrecondVerif.BlockDiag
+variable {α : Type}
+/-- an eigen-solver meeting `KernelPadOK`: the exact solver for diagonal matrices `diag(g 0 ≥ g 1 ≥ …)` (ascending
+eigenvalues, anti-diagonal permutation as eigenvectors) -/
+def diagKernel [Zero α] [One α] (g : Nat → α) : Kernel α :=
+  fun n _ => (fun i k => if i + k + 1 = n then 1 else 0, fun k => g (n - 1 - k))
+
+theorem diagKernel_padOK [Field α] [LinearOrder α] [IsStrictOrderedRing α] (g : Nat → α) : KernelPadOK (diagKernel g) := by
+  intro s N f _ hs k hk
+  have hk' : ¬ k < N - s := by omega
+  refine ⟨fun i => ?_, ?_⟩
+  · show (if i + k + 1 = N then (1 : α) else 0)
+      = (if k < N - s then (if i = s + k then 1 else 0) else (if i < s then (if i + (k - (N - s)) + 1 = s then 1 else 0) else 0))
+    rw [if_neg hk']
+    by_cases hi : i < s
+    · rw [if_pos hi]
+      by_cases h : i + k + 1 = N
+      · rw [if_pos h, if_pos (by omega)]
+      · rw [if_neg h, if_neg (by omega)]
+    · rw [if_neg hi, if_neg (by omega)]
+  · show g (N - 1 - k) = (if k < N - s then 0 else g (s - 1 - (k - (N - s))))
+    rw [if_neg hk']
+    congr 1; omega
+end PrecondVerif.BlockDiag
+
